@@ -60,19 +60,17 @@ theorem finetune_und_monotone (W : RMat n) (γ : ℚ) (c0 : Fin n → ℤ) (ds :
 
 /-- **modularity_louvain_und: hierarchy strictly increasing, never below the singletons start.**
 Every level in `out.levels` reports the true modularity of its partition, which is at least the modularity of the
-all-singletons partition the routine starts from; consecutive levels gain at least `1e-10`. -/
+all-singletons partition the routine starts from; consecutive levels gain at least `thr = 1e-10` (`q[h-1] + 1e-10 ≤ q[h]`:
+the routine stops at the first level with `q[h] − q[h-1] < 1e-10`). -/
 theorem louvain_und_monotone (W : RMat n) (γ : ℚ) (ds : List ℕ) (out : Out n)
     (hW : Symm W) (hs : 0 < total W) (h : louvainUnd W γ ds g0 = .ok out) :
     (∀ p ∈ out.levels,
         p.2 = Qund W γ (labOf p.1) ∧ Qund W γ (id : Fin n → Fin n) ≤ Qund W γ (labOf p.1)) ∧
-    List.IsChain (fun a b : Lab n × ℚ => a.2 < b.2) out.levels := by
+    List.IsChain (fun a b : Lab n × ℚ => a.2 + thr ≤ b.2) out.levels := by
   obtain ⟨h2, h3, _⟩ := louvainUnd_spec W γ ds out hW hs h
-  refine ⟨fun p hp => ?_, ?_⟩
-  · obtain ⟨h', h''⟩ := h2 p hp
-    exact ⟨h', h' ▸ h''⟩
-  · refine List.IsChain.imp (fun a b hab => ?_) h3
-    have := thr_pos
-    linarith
+  refine ⟨fun p hp => ?_, h3⟩
+  obtain ⟨h', h''⟩ := h2 p hp
+  exact ⟨h', h' ▸ h''⟩
 
 /-- **community_louvain never returns a partition worse than its start** — every objective (built-in or
 custom), every (also directed) `W`; the objective is `Σ_{ci=cj}` of the objective matrix of that type. -/
